@@ -310,6 +310,16 @@ func (x *Exec) callContract(fi *FuncInfo, con *Contract, recv *Val, args []Val, 
 		if tp, ok := rt.(*types.TypeParam); ok {
 			_ = tp
 			rt = args[0].Ty
+			// f[T](s []T) T: the result has the element type of the argument
+			if sig.Params().Len() > 0 {
+				if ps, ok := sig.Params().At(0).Type().(*types.Slice); ok {
+					if _, isTP := ps.Elem().(*types.TypeParam); isTP {
+						if as, ok := args[0].Ty.Underlying().(*types.Slice); ok {
+							rt = as.Elem()
+						}
+					}
+				}
+			}
 		}
 		if containsSlice(rt, 0) {
 			resultHasSlice = true
